@@ -23,6 +23,14 @@ CLAIMED = {
             "Trusted: the witness tables (their completeness is checked against the constructors' column validations). "
             "Not decided: perturbation invariance of results on data.",
             "DESIGN.md 6/C10"),
+    "C26": ("obligation table of documented construction rules: def-use guard dependencies of every raise, one-to-one matching of rules to raises, difference-direction check (ast)",
+            "Each documented build-time rule (39 rows over the constructors/builders) is enforced by a raise whose own guard "
+            "depends on the inputs the rule talks about, on the failing side of the test, not as a sub-case of another rule, "
+            "and no two rules share a raise unless they share the tested set; checks survive the builder's simplifications; "
+            "no exception is constructed without being raised.",
+            "Trusted: the obligation table (DESIGN.md Appendix C). Not decided: that conforming steps are accepted; "
+            "numeric thresholds inside guards.",
+            "DESIGN.md 6/C26"),
     "C07": ("sibling-field coverage matrix + def-use slot binding + whole-package call-signature binding (ast)",
             "Decides structural necessary conditions of composition: replace_leaves of all 13 node kinds forwards every "
             "semantic field into the builder parameter that feeds it; every certainly-resolved call in the package binds "
